@@ -43,6 +43,60 @@ def step (_ : Unit) (toks : List String) : Unit × String :=
       | .eoi => ((), "err eoi")
       | .fail => ((), "err other")
     | none => ((), "bad-op")
+  | ["bfdec", h] =>
+    -- the block-fetch decoder model against the real one (both stacks) on arbitrary bytes
+    match Tok.unhex h with
+    | some bs =>
+      let showPt : Pt → String := fun p => match p with
+        | .origin => "origin"
+        | .specific s hsh => toString s ++ ":" ++ Tok.hex hsh
+      match bfDec bs with
+      | .ok (.requestRange a b) pos => ((), "ok range " ++ showPt a ++ " " ++ showPt b ++ " " ++ toString pos)
+      | .ok .clientDone pos => ((), "ok clientdone " ++ toString pos)
+      | .ok .startBatch pos => ((), "ok startbatch " ++ toString pos)
+      | .ok .noBlocks pos => ((), "ok noblocks " ++ toString pos)
+      | .ok (.block body) pos => ((), "ok block " ++ Tok.hex body ++ " " ++ toString pos)
+      | .ok .batchDone pos => ((), "ok batchdone " ++ toString pos)
+      | .eoi => ((), "err eoi")
+      | .fail => ((), "err other")
+    | none => ((), "bad-op")
+  | ["csdec", h] =>
+    -- the chain-sync (header content) decoder model against the real one (both stacks)
+    match Tok.unhex h with
+    | some bs =>
+      let showPt : Pt → String := fun p => match p with
+        | .origin => "origin"
+        | .specific s hsh => toString s ++ ":" ++ Tok.hex hsh
+      let showTip : Tip → String := fun t => showPt t.point ++ "@" ++ toString t.blockNo
+      let showHdr : Header → String := fun c => "v" ++ toString c.variant ++ "/" ++
+        (match c.byronPrefix with | some (a, b) => toString a ++ "," ++ toString b | none => "-") ++ "/" ++ Tok.hex c.cbor
+      match csDec bs with
+      | .ok .requestNext pos => ((), "ok next " ++ toString pos)
+      | .ok .awaitReply pos => ((), "ok await " ++ toString pos)
+      | .ok (.rollForward c t) pos => ((), "ok fwd " ++ showHdr c ++ " " ++ showTip t ++ " " ++ toString pos)
+      | .ok (.rollBackward q t) pos => ((), "ok bwd " ++ showPt q ++ " " ++ showTip t ++ " " ++ toString pos)
+      | .ok (.findIntersect ps) pos => ((), "ok find " ++ Tok.showList showPt ps ++ " " ++ toString pos)
+      | .ok (.intersectFound q t) pos => ((), "ok found " ++ showPt q ++ " " ++ showTip t ++ " " ++ toString pos)
+      | .ok (.intersectNotFound t) pos => ((), "ok notfound " ++ showTip t ++ " " ++ toString pos)
+      | .ok .done pos => ((), "ok done " ++ toString pos)
+      | .eoi => ((), "err eoi")
+      | .fail => ((), "err other")
+    | none => ((), "bad-op")
+  | ["csenc", h] =>
+    match Tok.unhex h with
+    | some bs =>
+      match csDec bs with
+      | .ok m _ => ((), "ok " ++ Tok.hex (csEnc m))
+      | _ => ((), "err decode")
+    | none => ((), "bad-op")
+  | ["bfenc", h] =>
+    -- re-encode what the model decodes (the harness does the same with the real codec)
+    match Tok.unhex h with
+    | some bs =>
+      match bfDec bs with
+      | .ok m _ => ((), "ok " ++ Tok.hex (bfEnc m))
+      | _ => ((), "err decode")
+    | none => ((), "bad-op")
   | ["kenc", k, c] =>
     match k.toNat?, c.toNat? with
     | some k, some c =>
